@@ -89,6 +89,9 @@ func (vm *vm) suspend(ectx *execCtx, tryStackLen, iterStackLen, refStackLen uint
 	if len(vm.refStack) > int(refStackLen) {
 		ectx.refStack = append(ectx.refStack[:0], vm.refStack[refStackLen:]...)
 		vm.refStack = vm.refStack[:refStackLen]
+		// references to stack variables (made by dynamically resolved assignments, e.g. inside 'with') hold absolute stack
+		// indices: keep them relative to the saved stack segment
+		vm.rebaseStackRefs(ectx.refStack, -(vm.sb - 1))
 	}
 	vm.vtSeg("Suspend", len(ectx.tryStack), len(ectx.iterStack), len(ectx.refStack), len(ectx.stack))
 }
@@ -109,8 +112,29 @@ func (vm *vm) resume(ctx *execCtx) {
 	}
 	vm.tryStack = append(vm.tryStack, ctx.tryStack...)
 	vm.iterStack = append(vm.iterStack, ctx.iterStack...)
+	vm.rebaseStackRefs(ctx.refStack, sp)
 	vm.refStack = append(vm.refStack, ctx.refStack...)
 	vm.vtSeg("Resume", len(ctx.tryStack), len(ctx.iterStack), len(ctx.refStack), len(ctx.stack))
+}
+
+func (vm *vm) rebaseStackRefs(refs []ref, delta int) {
+	stack := (*[]Value)(&vm.stack)
+	for _, r := range refs {
+		switch r := r.(type) {
+		case *stashRef:
+			if r.v == stack {
+				r.idx += delta
+			}
+		case *stashRefLex:
+			if r.v == stack {
+				r.idx += delta
+			}
+		case *stashRefConst:
+			if r.v == stack {
+				r.idx += delta
+			}
+		}
+	}
 }
 
 type iterStackItem struct {
